@@ -331,6 +331,7 @@ class Runner:
                         form = (ins[1] + 2 * len(evs)) % 5
                         opnds = [evs, (e for e in evs), iter(evs), tuple(evs), filter(lambda e: True, evs)][form]
                         self.hook('cond-form', ('list', 'generator', 'iterator', 'tuple', 'filter')[form], len(evs))
+                        self.notes.append(('cond-form', ('list', 'generator', 'iterator', 'tuple', 'filter')[form], len(evs)))
                         cond = (AllOf if op == 'allof' else AnyOf)(env, opnds)
                     slots[ins[1]] = self.new(cond)
                     evs.clear()          # the caller's list is the caller's: a condition must not alias it
